@@ -462,8 +462,7 @@ def _run_nest(case, mon):
             if ok:
                 mon.check(_same(un, nest), "uncompress[noshape]:nest" + qual,
                           f"{op}({nest}, default={default!r}).uncompress() returned {un!r}")
-        got2, explicit2, empties2 = _tree_content(root, default)
-        mon.check(got2 == want and not explicit2 and not empties2, "uncompress:changed-tree",
+        mon.check(_tree_content(root, default) == (got, explicit, empties), "uncompress:changed-tree",
                   f"uncompress() changed the stored tree built from {nest}")
     mon.state(("nest", dims, sorted((list(k), v[0], v[1]) for k, v in want.items()), repr(default)))
 
